@@ -364,9 +364,84 @@ def reconnect_case(args) -> Dict[str, Any]:
     return {"problems": probs, "skipped": False}
 
 
+INCUMBENTS = {  # kind -> (logger, allow_multiple, requested id, name)
+    "module": (0, 0, 10, b"inc"), "logger": (1, 0, 10, b"inc"), "shared-logger": (1, 1, 10, b"inc"), "shared-module": (0, 1, 10, b"inc"), "dynamic": (0, 0, 0, b"inc"),
+}
+
+
+def newcomer_requests() -> List[Tuple[str, int, int, int, str]]:
+    """(protocol, logger flag, allow_multiple, requested id, name): same id / same name / out of range, with and without the logger flag"""
+    out = []
+    for lg in (0, 1):
+        out.append(("v1", lg, 0, 10, ""))
+        for am in (0, 1):
+            for nm in ("inc", "new"):
+                out.append(("v2", lg, am, 10, nm))
+        out.append(("v2", lg, 0, 11, "inc"))   # the incumbent's name under another id
+        out.append(("v2", lg, 0, 150, "new"))  # outside the user range
+        out.append(("v2", lg, 0, 0, "inc"))    # dynamic id, the incumbent's name
+    return out
+
+
+def incumbent_case(args) -> Dict[str, Any]:
+    """a connected module (plain / logger / one of a shared id / dynamic) and a newcomer whose request is refused or accepted: in
+    lock step with the reference; afterwards the incumbent is still described, served, acknowledged and - if it is a logger - copied
+    on other modules' acknowledgements exactly as the reference says ("without disturbing the incumbent")"""
+    tc, ikind, req, how = args
+    lg, am, mid, name = INCUMBENTS[ikind]
+    proto, nlg, nam, nmid, nname = req
+    mmx.fresh_gc()
+    env = lock.Env(timecode=tc, fin_grace=0, hids={"M": 1, "I": 2, "T": 3, "P": 4, "N": 5})
+    probs: List[Dict[str, Any]] = []
+    fr = lambda mt, payload=b"", **kw: P.mkframe(mt, payload, timecode=tc, **kw)
+    try:
+        ev = [["conn", "M"], ev_send("M", fr(P.MT_CONNECT, P.p_connect(), src_mod_id=90)), ["settle"]]
+        for t in (P.MT_CLIENT_INFO, P.MT_CLIENT_CLOSED, P.MT_FAILED_MESSAGE):
+            ev.append(ev_send("M", fr(P.MT_SUBSCRIBE, P.p_sub(t), src_mod_id=90)))
+        ev += [["settle"], ["conn", "I"], ev_send("I", fr(P.MT_CONNECT_V2, P.p_connect_v2(lg, 0, am, mid, 701, name), src_mod_id=mid)), ["settle"]]
+        for e in ev:
+            env.apply(e)
+        acks = [k for k in env.received["I"] if k[0] == "ack"]
+        imid = acks[0][1] if acks else mid
+        for e in [ev_send("I", fr(P.MT_SUBSCRIBE, P.p_sub(1001), src_mod_id=imid)), ["settle"],
+                  ["conn", "T"], ev_send("T", fr(P.MT_CONNECT, P.p_connect(), src_mod_id=12)), ["settle"],
+                  ["conn", "P"], ev_send("P", fr(P.MT_CONNECT, P.p_connect(), src_mod_id=21)), ["settle"]]:
+            env.apply(e)
+        # the newcomer
+        env.apply(["conn", "N"])
+        if proto == "v1":
+            env.apply(ev_send("N", fr(P.MT_CONNECT, P.p_connect(nlg, 0), src_mod_id=nmid)))
+        else:
+            env.apply(ev_send("N", fr(P.MT_CONNECT_V2, P.p_connect_v2(nlg, 0, nam, nmid, 702, nname.encode()), src_mod_id=max(nmid, 0))))
+        env.settle()
+        if how == "leaves":
+            env.apply(ev_send("N", fr(P.MT_DISCONNECT, src_mod_id=max(nmid, 0))))
+            env.settle()
+        env.apply(["fin", "N"])
+        env.settle()
+        # afterwards: a third module's request (copied to loggers), a publication, the incumbent's own request
+        for e in [ev_send("T", fr(P.MT_SUBSCRIBE, P.p_sub(1003), src_mod_id=12)), ["settle"],
+                  ev_send("P", fr(1001, b"still", src_mod_id=21) + fr(1001, b"to-id", src_mod_id=21, dest_mod_id=imid)), ["settle"],
+                  ev_send("I", fr(P.MT_SUBSCRIBE, P.p_sub(1002), src_mod_id=imid)), ["settle"],
+                  ev_send("P", fr(1002, b"new-sub", src_mod_id=21)), ["settle"]]:
+            env.apply(e)
+        for p in env.problems:
+            if p.get("slot") in ("I", "M") or p["prop"] in ("C06", "C03"):
+                q = dict(p)
+                q["prop"] = "C06" if p["prop"] != "C03" else "C03"
+                q["kind"] = "incumbent-disturbed:" + p["kind"] if p.get("slot") == "I" else p["kind"]
+                probs.append(q)
+    finally:
+        env.close()
+    return {"problems": probs, "skipped": False, "rounds": env.rounds}
+
+
 def run_chunk(items):
     out = []
     for kind, args in items:
+        if kind == "incumbent":
+            out.append(incumbent_case(args))
+            continue
         if kind == "wrap":
             out.append(wrap_case(args))
             continue
@@ -419,6 +494,11 @@ def run(tier: str) -> int:
         for ncl in (1, 3):
             for how in ("rst", "fin"):
                 items.append(("reconnect", (tc, ncl, how)))
+    for tc in ((False,) if tier == "quick" else (False, True)):
+        for ikind in INCUMBENTS:
+            for req in newcomer_requests():
+                for how in ("refused-or-stays", "leaves"):
+                    items.append(("incumbent", (tc, ikind, req, how)))
     n_entry = 0
     for entry in ("connect", "connect-positional", "client_context"):
         for mid in (0, 33, 5):  # 5 is listed in the core module-id table (QUICK_LOGGER): an empty name is filled in from it, a given name is kept
@@ -434,7 +514,10 @@ def run(tier: str) -> int:
     for (kind, args), r in zip(items, flat):
         if r.get("skipped"):
             continue
-        if kind == "wrap":
+        if kind == "incumbent":
+            totals["incumbent_cases"] = totals.get("incumbent_cases", 0) + 1
+            totals["transitions"] = totals.get("transitions", 0) + r.get("rounds", 0)
+        elif kind == "wrap":
             wraps += 1
             totals["transitions"] = totals.get("transitions", 0) + r["rounds"]
             if not r["wrapped"]:
@@ -457,7 +540,9 @@ def run(tier: str) -> int:
 
 def replay(case) -> int:
     kind, args = case["kind"], case["args"]
-    if kind == "reconnect":
+    if kind == "incumbent":
+        r = incumbent_case((args[0], args[1], tuple(args[2]), args[3]))
+    elif kind == "reconnect":
         r = reconnect_case(tuple(args))
     elif kind == "wrap":
         args = (args[0], tuple(args[1]), args[2])
